@@ -7,6 +7,7 @@
 #include <cmath>
 #include <map>
 #include <optional>
+#include <set>
 #include <string>
 #include <vector>
 #include "../world.h"
@@ -160,10 +161,13 @@ struct Temporal {
   Coeffs hdd, ssd;
   ld decay = 4;
   int temporalFrom = 0; // temporal values are first asked for at this tick
+  std::set<int> skipTicks; // ticks on which nothing temporal is obtained
 
   void sample(World& w, int tick) {
     if (tick < temporalFrom)
       return; // nothing obtained yet: the history starts at the first query
+    if (skipTicks.count(tick))
+      return; // a gap: the history starts over at the next query
     for (auto& kv : w.live) {
       Cg& c = w.cgs[kv.second];
       Item& it = byInc[c.inc];
